@@ -19,7 +19,8 @@ SPEC = {
     "floors": {"structure": 300, "symmetry": 2000, "weights_positive": 2000, "volume_sum": 100, "oracle_neighbors": 2000,
                "oracle_weights": 2000, "oracle_volumes": 2000, "reader": 200, "eof": 60,
                "vm_frame_selection": 20, "vm_row_sums": 20, "vm_oracle": 20, "vm_saved": 8,
-               "box_drifting_slowly_between_frames": 8, "systems_over_65536_particles": 1, "volume_matrix_of_a_large_configuration_with_a_cavity": 1},
+               "box_drifting_slowly_between_frames": 8, "particle_number_changing_between_frames": 5, "held_arrays": 100,
+               "volume_matrix_with_a_step_of_a_third_of_the_spacing": 3, "systems_over_65536_particles": 1, "volume_matrix_of_a_large_configuration_with_a_cavity": 1},
     "insitu": ("read_neighbors",),
     "rule": ("{2D,3D} x N 8..80 (gas / hard-core / perturbed lattice, general position) x orthogonal boxes with unequal edges x origins "
              "{0, negative, large, asymmetric, centred, zero-sum-but-not-centred} x 1..3 frames (box and N constant or box varying per "
@@ -59,6 +60,8 @@ def make_traj(rng, d, N, frames, thorough=False, poskind=None, independent_frame
         L0[:] = L0[0]
     f0 = gc.make_frac(rng, d, N, poskind)
     N = len(f0)
+    # the number of particles changing from frame to frame (grand-canonical runs, a dumped group that grows): every frame lists ITS particles
+    vary_n = frames > 1 and not independent_frames and rng.random() < 0.25
     snaps = []
     for t in range(frames):
         L = L0 * (rng.uniform(0.8, 1.25) if (vary_box and t) else 1.0) * (1.0 + drift * t)
@@ -82,7 +85,11 @@ def make_traj(rng, d, N, frames, thorough=False, poskind=None, independent_frame
             f = gc.make_frac(rng, d, N, poskind)          # every frame keeps the minimum distance of its generator
         else:
             f = (f0 + (rng.normal(0, 0.05, f0.shape) if t else 0.0)) % 1.0
-        lay = gc.auto_layout(N, np.ones(N, dtype=int), d)
+        if vary_n and t:
+            nt = int(rng.integers(max(8, N // 2), N + N // 2 + 2))
+            f = f[:nt] if nt <= len(f) else np.vstack([f, rng.random((nt - len(f), d))])
+        Nt = len(f)
+        lay = gc.auto_layout(Nt, np.ones(Nt, dtype=int), d)
         gc.LAYOUT_COUNTS[lay] = gc.LAYOUT_COUNTS.get(lay, 0) + 1
         pos = gc.lay_out(lo + f * L, lay, "positions")
         bb = np.column_stack([lo, lo + L])
@@ -90,10 +97,11 @@ def make_traj(rng, d, N, frames, thorough=False, poskind=None, independent_frame
             # a snapshot as the library's own HOOMD reader builds it: box centred on the origin, `boxbounds` holds the EXTENT of the
             # coordinates (min / max per axis), only `boxlength` carries the cell
             bb = np.column_stack([np.asarray(pos).min(axis=0), np.asarray(pos).max(axis=0)])
-        snaps.append(SingleSnapshot(timestep=100 * t, nparticle=N, particle_type=gc.lay_out(np.ones(N, dtype=int), lay, "types"), positions=pos,
+        snaps.append(SingleSnapshot(timestep=100 * t, nparticle=Nt, particle_type=gc.lay_out(np.ones(Nt, dtype=int), lay, "types"), positions=pos,
                                     boxlength=L.copy(), boxbounds=bb, realbounds=None, hmatrix=np.diag(L)))
     return Snapshots(nsnapshots=frames, snapshots=snaps), {"d": d, "N": N, "origin": okind, "frames": frames,
-                                                            "vary_box": bool(vary_box), "pos": poskind, "drift_per_frame": drift}
+                                                            "vary_box": bool(vary_box), "pos": poskind, "drift_per_frame": drift,
+                                                            "Ns": [s_.nparticle for s_ in snaps]}
 
 
 def make_cavity_traj(rng, N0, frames):
@@ -309,16 +317,21 @@ def files_case(ctx, rng, wd):
     hw, fw = parse_file(wname)
     ho, rows_o = parse_overall(out + ".overall.dat")
     wword = "edgelengthlist" if d == 2 else "facearealist"
-    good = (len(fn_) == frames and len(fw) == frames and len(rows_o) == frames * N and ho == ["id", "cn", "area_or_volume"]
+    Ns = inf.get("Ns") or [N] * frames
+    if len(set(Ns)) > 1:
+        ctx.count("particle_number_changing_between_frames")
+    offs = np.concatenate([[0], np.cumsum(Ns)]).astype(int)
+    good = (len(fn_) == frames and len(fw) == frames and len(rows_o) == int(sum(Ns)) and ho == ["id", "cn", "area_or_volume"]
             and all(h == ["id", "cn", "neighborlist"] for h in hn) and all(h == ["id", "cn", wword] for h in hw))
     if not ctx.check("structure", good, key + "/layout",
-                     lambda: f"frames neighbour {len(fn_)} weights {len(fw)} overall rows {len(rows_o)} (expected {frames} x {N}); "
+                     lambda: f"frames neighbour {len(fn_)} weights {len(fw)} overall rows {len(rows_o)} (expected {frames} frames of {Ns} particles); "
                              f"headers {hn[:1]} {hw[:1]} {ho}", info):
         return
     for k in range(frames):
         s = snaps.snapshots[k]
         L = s.boxlength
-        rn, rw, ro = fn_[k], fw[k], rows_o[k * N:(k + 1) * N]
+        N = Ns[k]
+        rn, rw, ro = fn_[k], fw[k], rows_o[offs[k]:offs[k + 1]]
         ids_ok = ([int(t[0]) for t in rn] == list(range(1, N + 1)) and [int(t[0]) for t in rw] == list(range(1, N + 1))
                   and [int(t[0]) for t in ro] == list(range(1, N + 1)))
         if not ctx.check("structure", ids_ok, key + "/ids", f"frame {k}: rows are not ids 1..{N} in order in all three files", info):
@@ -338,21 +351,27 @@ def files_case(ctx, rng, wd):
     for path, heads, frs in ((out + ".neighbor.dat", hn, fn_), (wname, hw, fw)):
         maxcn = max(int(t[1]) for rows in frs for t in rows)
         for Nmax in (200, maxcn, max(1, maxcn - 3)):
+            held = []
             with open(path) as f:
                 okk = True
                 for k in range(frames):
-                    ok2, got = ctx.call(key + "/read", read_neighbors, f, N, Nmax, data=info)
+                    ok2, got = ctx.call(key + "/read", read_neighbors, f, Ns[k], Nmax, data=info)
                     if not ok2:
                         okk = False
                         break
-                    exp = expected_read(heads[k], frs[k], N, Nmax)
+                    exp = expected_read(heads[k], frs[k], Ns[k], Nmax)
                     got = np.asarray(got)
+                    held.append((k, got, exp))
                     ctx.check("reader", got.shape == exp.shape and np.array_equal(got, exp) and
                               (np.issubdtype(got.dtype, np.integer) == ("neighborlist" in heads[k])),
                               key + "/read/" + ("list" if "neighborlist" in heads[k] else "weights"),
                               lambda: f"{os.path.basename(path)} frame {k} Nmax={Nmax}: shape {got.shape} dtype {got.dtype}, expected {exp.shape}", info)
                 if okk:
                     ctx.check("eof", f.read().strip() == "", key + "/read/eof", f"{os.path.basename(path)}: data left after the last frame", info)
+            # the caller keeps every frame's array (all frames of the weight file read into a list): each must still be what it was
+            for k, got, exp in held[:-1]:
+                ctx.check("held_arrays", got.shape == exp.shape and np.array_equal(got, exp), key + "/read/earlier_frame_changed",
+                          lambda: f"{os.path.basename(path)}: the array returned for frame {k} changed while later frames were read (Nmax={Nmax})", info)
     for p in (out + ".neighbor.dat", wname, out + ".overall.dat"):
         os.remove(p)
 
@@ -432,6 +451,15 @@ def vm_case(ctx, rng, wd, i, big=False):
     if i % 4 == 1 and frames > 1:
         k = frames - 1
     h = float(rng.choice([0.01, 0.01, 0.005, 0.02]))
+    coarse = False
+    if not big and d == 2 and i % 6 == 4:
+        coarse = True
+        # a step that is NOT small against the spacing (a dense configuration in small units with the default step, or a deliberately coarse
+        # response): the matrix is the central difference with the REQUESTED step, whatever its size
+        sp_ = float(np.sqrt(np.prod(snaps.snapshots[k].boxlength) / N))
+        h = float(rng.uniform(0.27, 0.34)) * sp_
+        i = 2 * (i // 2)            # compare every entry with central differences (same step) of the independent tessellation
+        ctx.count("volume_matrix_with_a_step_of_a_third_of_the_spacing")
     info = lambda: {**_info(snaps, inf), "nconfig": k, "deltar": h}  # noqa: E731
     key = f"VolumeMatrix/{'nconfig==0' if k == 0 else 'nconfig>0'}"
     save = i % 3 == 0
@@ -489,8 +517,9 @@ def vm_case(ctx, rng, wd, i, big=False):
                 ctx.violation(key + "/oracle", f"volume-response matrix: entries (row, column, returned, central difference of an independent tessellation, "
                               f"analytic derivative) {still[:4]}", info(), "vm_oracle")
         cs = (t["volumes"][:, None] * A).sum(axis=0)
-        ctx.close("vm_oracle", cs, np.zeros_like(cs), key + "/volume_conservation", atol=3e-2 * float(np.abs(t["volumes"][:, None] * A).max()), rtol=0.0,
-                  what="sum_i V_i A[i, c] (total volume is conserved)", data=info, n=1)
+        if not coarse:      # (an O(step^2) identity: the self term is defined through the row sum, not as the difference quotient of the cell itself)
+            ctx.close("vm_oracle", cs, np.zeros_like(cs), key + "/volume_conservation", atol=3e-2 * float(np.abs(t["volumes"][:, None] * A).max()), rtol=0.0,
+                      what="sum_i V_i A[i, c] (total volume is conserved)", data=info, n=1)
         if d == 2 and i % 2 == 0:
             F = np.zeros((N, N * d))
             p0 = s.positions - s.boxbounds[:, 0]
